@@ -6,7 +6,7 @@ import Babylon.Exec.Inv4
 namespace Babylon.Exec
 open Babylon.Core
 
-macro "s_close" : tactic => `(tactic| (
+macro "s_close_C" : tactic => `(tactic| (
   (try simp only [balExited] at *)
   (try simp only [exec_proj, upd_same, Q.claim_fold, Q.bump_fold] at *)
   first
@@ -15,7 +15,7 @@ macro "s_close" : tactic => `(tactic| (
         afterLdRunB, role_chk, popctx_role,
         Q.itemAt_setSt, Q.stAt_setSt, Q.itemAt_take, Q.stAt_take, Q.length_take, Q.length_setSt, Q.popIdx_setSt, Q.popIdx_take,
         Q.itemAt_claim, Q.stAt_claim, Q.popIdx_claim, Q.length_claim, Q.itemAt_bump, Q.stAt_bump, Q.popIdx_bump, Q.length_bump,
-        Q.itemAt_some_lt, Q.stAt_some_lt]))
+        Q.itemAt_some_lt, Q.stAt_some_lt, Q.take_old]))
 
 section
 variable {c : Cfg} {s s' : State} {t : Nat} {lb : Lbl}
@@ -56,6 +56,9 @@ theorem Inv4.step_j1 (I : Inv1 c s) (J : Inv2 c s) (B : Inv2b s) (K : Inv3 c s) 
   have hnm2 := noteMarker_ne_none
   have hkx : ∀ p k, s.pc t = .gPub p k → k ≠ .wStopping ∧ k ≠ .exited := by
     intro p k hp; rw [hp] at hwf; exact ne_exit_cont c none k hwf
+  have hr4 := I.r4
+  have hkj : ∀ p k, s.pc t = .gPub p k → (∀ n, k = .sJoinW n → n = 0) ∧ (k = .sEnd → c.workers = []) := by
+    intro p k hp; rw [hp] at hwf; exact cont_join c none k hwf
   have hne1 := dispatchPc_ne
   have hne2 := onEmpty_ne
   have hst0 : ∀ k, s.pc t = .gTake .stop k → (s.pc t).role = .stopper ∧ (s.pc t).pastB = true := by
@@ -73,22 +76,37 @@ theorem Inv4.step_j1 (I : Inv1 c s) (J : Inv2 c s) (B : Inv2b s) (K : Inv3 c s) 
     have hit := (isTask_iff cl.item).mp (l4 k0 i0 cl hcell)
     obtain ⟨idx, hidx⟩ := hit
     clear hcell l4
-    cases ctx <;> simp only [hidx] at * <;> s_close
+    cases ctx <;> simp only [hidx] at * <;> s_close_C
   case wRecv i0 cl hpc hcell hfull =>
     have hc1 := Q.itemAt_eq _ _ _ hcell
     have hc2 := Q.stAt_eq _ _ _ hcell
     have hc3 : i0 < s.g.cells.length := Q.stAt_some_lt _ _ _ hc2
     rw [hfull] at hc2
     clear hcell l4
-    cases hx : cl.item <;> simp only [hx] at * <;> s_close
+    cases hx : cl.item <;> simp only [hx] at * <;> s_close_C
   case gPublish p k hpc hfree hst =>
     have hc3 : p < s.g.cells.length := Q.stAt_some_lt _ _ _ hst
-    clear l4; s_close
+    clear l4; s_close_C
   case sLd hpc =>
     skip
-    clear l4; s_close
-  all_goals (clear l4; try s_close)
-  all_goals (trace_state; sorry)
+    clear l4; s_close_C
+  case sJoinW n0 u0 hpc hw hu0 =>
+    clear l4
+    simp only [exec_proj] at hp hstab ⊢
+    by_cases ht : t' = t
+    · subst ht
+      simp only [upd_same] at hp
+      have hn : n = n0 + 1 := hj5 n0 n hp
+      subst hn
+      by_cases hmn : m = n0
+      · subst hmn
+        rw [hw] at hu; injection hu with hu; subst hu
+        exact hstab _ hu0
+      · have hlt : m < n0 := by omega
+        exact hstab u (j1 t' n0 hpc m u hlt hu)
+    · have hp' : s.pc t' = .sJoinW n := by simpa [upd, ht] using hp
+      exact hstab u (j1 t' n hp' m u hm hu)
+  all_goals (clear l4; try s_close_C)
 
 set_option maxHeartbeats 4000000 in
 theorem Inv4.step_j2 (I : Inv1 c s) (J : Inv2 c s) (B : Inv2b s) (K : Inv3 c s) (M : Inv4 c s) (h : StepCase c s t lb s') :
@@ -129,6 +147,9 @@ theorem Inv4.step_j2 (I : Inv1 c s) (J : Inv2 c s) (B : Inv2b s) (K : Inv3 c s) 
   have hnm2 := noteMarker_ne_none
   have hkx : ∀ p k, s.pc t = .gPub p k → k ≠ .wStopping ∧ k ≠ .exited := by
     intro p k hp; rw [hp] at hwf; exact ne_exit_cont c none k hwf
+  have hr4 := I.r4
+  have hkj : ∀ p k, s.pc t = .gPub p k → (∀ n, k = .sJoinW n → n = 0) ∧ (k = .sEnd → c.workers = []) := by
+    intro p k hp; rw [hp] at hwf; exact cont_join c none k hwf
   have hne1 := dispatchPc_ne
   have hne2 := onEmpty_ne
   have hst0 : ∀ k, s.pc t = .gTake .stop k → (s.pc t).role = .stopper ∧ (s.pc t).pastB = true := by
@@ -146,22 +167,39 @@ theorem Inv4.step_j2 (I : Inv1 c s) (J : Inv2 c s) (B : Inv2b s) (K : Inv3 c s) 
     have hit := (isTask_iff cl.item).mp (l4 k0 i0 cl hcell)
     obtain ⟨idx, hidx⟩ := hit
     clear hcell l4
-    cases ctx <;> simp only [hidx] at * <;> s_close
+    cases ctx <;> simp only [hidx] at * <;> s_close_C
   case wRecv i0 cl hpc hcell hfull =>
     have hc1 := Q.itemAt_eq _ _ _ hcell
     have hc2 := Q.stAt_eq _ _ _ hcell
     have hc3 : i0 < s.g.cells.length := Q.stAt_some_lt _ _ _ hc2
     rw [hfull] at hc2
     clear hcell l4
-    cases hx : cl.item <;> simp only [hx] at * <;> s_close
+    cases hx : cl.item <;> simp only [hx] at * <;> s_close_C
   case gPublish p k hpc hfree hst =>
     have hc3 : p < s.g.cells.length := Q.stAt_some_lt _ _ _ hst
-    clear l4; s_close
+    clear l4; s_close_C
   case sLd hpc =>
     have hr : s.running = true := by first | exact run1 t (Or.inl hpc) | skip
-    clear l4; (try simp only [hr] at *); s_close
-  all_goals (clear l4; try s_close)
-  all_goals (trace_state; sorry)
+    clear l4; (try simp only [hr] at *); s_close_C
+  case sJoinW n0 u0 hpc hw hu0 =>
+    clear l4
+    simp only [exec_proj] at hp hstab ⊢
+    by_cases ht : t' = t
+    · subst ht
+      simp only [upd_same] at hp
+      have hlen : c.workers.length ≤ n0 + 1 := hj6 n0 hp
+      refine ⟨fun u huw => ?_, fun b hb => ?_⟩
+      · obtain ⟨m, hm, hmu⟩ := hmem u huw
+        by_cases hmn : m = n0
+        · subst hmn
+          rw [hw] at hmu; injection hmu with hmu; subst hmu
+          exact hstab _ hu0
+        · exact hstab u (j1 t' n0 hpc m u (by omega) hmu)
+      · exact hstab b (m7 t' (by rw [hpc]; rfl) b hb)
+    · have hp' : s.pc t' = .sEnd := by simpa [upd, ht] using hp
+      obtain ⟨h1, h2⟩ := j2 t' hp'
+      exact ⟨fun u hu' => hstab u (h1 u hu'), fun b hb => hstab b (h2 b hb)⟩
+  all_goals (clear l4; try s_close_C)
 
 set_option maxHeartbeats 4000000 in
 theorem Inv4.step_j3 (I : Inv1 c s) (J : Inv2 c s) (B : Inv2b s) (K : Inv3 c s) (M : Inv4 c s) (h : StepCase c s t lb s') :
@@ -200,6 +238,9 @@ theorem Inv4.step_j3 (I : Inv1 c s) (J : Inv2 c s) (B : Inv2b s) (K : Inv3 c s) 
   have hnm2 := noteMarker_ne_none
   have hkx : ∀ p k, s.pc t = .gPub p k → k ≠ .wStopping ∧ k ≠ .exited := by
     intro p k hp; rw [hp] at hwf; exact ne_exit_cont c none k hwf
+  have hr4 := I.r4
+  have hkj : ∀ p k, s.pc t = .gPub p k → (∀ n, k = .sJoinW n → n = 0) ∧ (k = .sEnd → c.workers = []) := by
+    intro p k hp; rw [hp] at hwf; exact cont_join c none k hwf
   have hne1 := dispatchPc_ne
   have hne2 := onEmpty_ne
   have hst0 : ∀ k, s.pc t = .gTake .stop k → (s.pc t).role = .stopper ∧ (s.pc t).pastB = true := by
@@ -217,22 +258,21 @@ theorem Inv4.step_j3 (I : Inv1 c s) (J : Inv2 c s) (B : Inv2b s) (K : Inv3 c s) 
     have hit := (isTask_iff cl.item).mp (l4 k0 i0 cl hcell)
     obtain ⟨idx, hidx⟩ := hit
     clear hcell l4
-    cases ctx <;> simp only [hidx] at * <;> s_close
+    cases ctx <;> simp only [hidx] at * <;> s_close_C
   case wRecv i0 cl hpc hcell hfull =>
     have hc1 := Q.itemAt_eq _ _ _ hcell
     have hc2 := Q.stAt_eq _ _ _ hcell
     have hc3 : i0 < s.g.cells.length := Q.stAt_some_lt _ _ _ hc2
     rw [hfull] at hc2
     clear hcell l4
-    cases hx : cl.item <;> simp only [hx] at * <;> s_close
+    cases hx : cl.item <;> simp only [hx] at * <;> s_close_C
   case gPublish p k hpc hfree hst =>
     have hc3 : p < s.g.cells.length := Q.stAt_some_lt _ _ _ hst
-    clear l4; s_close
+    clear l4; s_close_C
   case sLd hpc =>
     skip
-    clear l4; s_close
-  all_goals (clear l4; try s_close)
-  all_goals (trace_state; sorry)
+    clear l4; s_close_C
+  all_goals (clear l4; try s_close_C)
 
 end
 end Babylon.Exec
